@@ -299,7 +299,9 @@ EmbedConstPool(l, palign, image, r, app, p, lb) ==
                      /\ \/ UNCHANGED labs
                         \/ canBind /\ labs' = bound
      /\ (valid => lb = labs'[l])
-     /\ WrP(app, p) /\ SameCounts(p)
+     /\ WrP(app, p)
+     /\ p.nrel = nrel /\ UNCHANGED nrel
+     /\ nfix' = p.nfix /\ p.nfix <= nfix              \* binding the label may resolve pending fixups
      /\ last' = Last("EmbedConstPool", r, Len(app), palign)
 
 (* ---- embed_label(label, data_size) ------------------------------------------------------------------------ *)
@@ -361,7 +363,7 @@ Bind(l, r, p) ==
   /\ IF r = "Ok" THEN /\ LabelValid(l) /\ ~IsBound(l)
                       /\ labs' = [labs EXCEPT ![l] = BoundAt(cur, off)]
                       /\ nfix' = p.nfix /\ p.nfix <= nfix
-                 ELSE /\ ~LabelValid(l) \/ IsBound(l)
+                 ELSE /\ (IF LabelValid(l) THEN IsBound(l) ELSE TRUE)
                       /\ UNCHANGED labs /\ nfix' = nfix /\ p.nfix = nfix
   /\ p.nrel = nrel /\ UNCHANGED nrel
   /\ WrP(<<>>, p)
